@@ -120,6 +120,11 @@ def main():
     if len(sys.argv) == 3 and sys.argv[1] == "--sweep":
         sweep(sys.argv[2]); return
     sel = sys.argv[1:]
+    # every scratch copy lives at a new path, so each build adds to Go's build cache; a long
+    # session filled the disk that way.  Start from an empty cache when space gets short.
+    st = os.statvfs(tempfile.gettempdir())
+    if st.f_bavail * st.f_frsize < 40 << 30:
+        subprocess.run(["go", "clean", "-cache"], check=False)
     sh(os.path.join(V, "bin/build"))
     from concurrent.futures import ThreadPoolExecutor
     todo = [m for m in mutants() + benign() if not sel or any(x in m[0] for x in sel)]
